@@ -10,7 +10,7 @@ V = os.path.dirname(os.path.dirname(os.path.abspath(__file__)))
 META = {
     "C01": dict(cat="model_checking", eng="E1-sched", ref="3 (scheduler group), 1.1",
                 tech="stateless deviation-bounded exploration of the real scheduler + per-doer trace automaton",
-                text="Every execution of the closed system (real Doist/DoDoer/Doer code + scripted doers) with up to 2 deviations from default answers over all small doer forests is run (thorough: forests of depth <= 3, and 3 deviations on forests of <= 2 leaves); the alphabet includes raise / KeyboardInterrupt / failing and completing enter / extend / remove of self, adjacent and far siblings and extend/remove reaching into a sibling DoDoer, and the same doer objects having been run to completion before by another Doist on another tyme base; a trace automaton checks enter recur* (clean|cease|abort) exit per doer. Bounded-exhaustive: a counterexample within the bound cannot be missed.",
+                text="Every execution of the closed system (real Doist/DoDoer/Doer code + scripted doers) with up to 2 deviations from default answers over all small doer forests is run (thorough: forests of depth <= 3, and 3 deviations on forests of <= 2 leaves); the alphabet includes raise / KeyboardInterrupt / failing and completing enter / extend / remove of self, adjacent and far siblings and extend/remove reaching into a sibling DoDoer, and the same doer objects having been run to completion before by another Doist on another tyme base; a trace automaton checks enter recur* (clean|cease|abort) exit per doer, and the terminal step must say why the doer ended (finished by itself -> clean, raised -> abort). Bounded-exhaustive: a counterexample within the bound cannot be missed.",
                 note="Trusted: CPython generator semantics, the harness leaf templates, the trace monitor. Bounds: forests <= 4 leaves (depth <= 2) / <= 3 leaves (depth 3), horizon 3 recurs; bound 3 only on forests of <= 2 leaves."),
     "C02": dict(cat="model_checking", eng="E1-sched", ref="3 (scheduler group)",
                 tech="stateless deviation-bounded exploration + exit-window order monitor",
@@ -34,7 +34,7 @@ META = {
                 note="extend from inside enter is outside the quantifier. Re-adding a self-removed still-running doer is not in the alphabet."),
     "C08": dict(cat="model_checking", eng="E3 op-sequence enumeration", ref="3 (C08)",
                 tech="exhaustive enumeration of all timer operation sequences up to a depth against a start/stop model",
-                text="All sequences (depth 5/7) of advance/rewind/start/restart/wind on a real Tymer are compared float-exactly with a model written from the statement, and a boundary sweep places tyme exactly on, one and two ulps around every start and stop for 64 non-dyadic starts x 123 durations x {no restart, restart(), restart(d)}; all sequences (depth 6/8) of clock jumps/reads/starts on a real MonoTimer (retro True/False) are checked for monotone elapsed, sticky expired, remaining consistent with expired whatever the order in which the three are read, and elapsed 0 at the clock value a period was started at.",
+                text="All sequences (depth 5/7) of advance/rewind/start/restart/wind on a real Tymer are compared float-exactly with a model written from the statement, and a boundary sweep places tyme exactly on, one and two ulps around every start and stop for 64 non-dyadic starts x 123 durations x {no restart, restart(), restart(d)}; all sequences (depth 6/8) of clock jumps/reads/starts on a real MonoTimer (retro True/False) are checked for monotone elapsed, sticky expired, remaining consistent with expired whatever the order in which the three are read, elapsed 0 at the clock value a period was started at, plain arithmetic (incl. lossless restart) while the clock has only run forward, and a backward step landing between two readings of one operation.",
                 note="Fake clock installed as hio.help.timing.time; dyadic values keep MonoTimer arithmetic exact."),
     "C09": dict(cat="model_checking", eng="E1 over FakeNet", ref="3 (TCP group), 2 (FakeNet)",
                 tech="stateless deviation-bounded exploration of kernel answers (partial send/short read/would-block/TLS want) on real tcp Client/Server over an in-memory kernel model",
@@ -54,7 +54,7 @@ META = {
                 note="Traffic is stamped with the tyme of the service call that moved the bytes. Persistent connections are outside the property."),
     "C13": dict(cat="model_checking", eng="E3 differential", ref="3 (HTTP parsing group)",
                 tech="exhaustive enumeration of all <=2/3-cut partitions and byte-by-byte feeding of a message corpus; fragmented vs one-shot differential on the real parsers",
-                text="Every message of a bounded grammar (requests, responses, CL/chunked/close-delimited, CRLF/LF heads, 100-continue, pipelined pairs) is parsed one-shot and under every partition, also by a parser that was handed its (empty) receive buffer after construction; all parser result fields must be identical.",
+                text="Every message of a bounded grammar (requests, responses, CL/chunked/close-delimited, CRLF/LF heads, 100-continue, pipelined pairs, messages beyond 64 KiB, header / trailer lines one byte below, at and above the line-size limit cut around their CRLF) is parsed one-shot and under every partition, also by a parser that was handed its (empty) receive buffer after construction; all parser result fields must be identical.",
                 note="Equal escaping exceptions count as equal (C16 judges escapes)."),
     "C15": dict(cat="model_checking", eng="E3 + reference parser", ref="3 (C15)",
                 tech="exhaustive enumeration of event streams x line-terminator assignments x fragmentations x framing, against a WHATWG reference parser",
@@ -110,11 +110,11 @@ META = {
                 note="Boxes are built by hand (Box, unders, goacts as plain callables); the builder verbs and Need/Act machinery are not exercised. Reference never reads Box.pile."),
     "C26": dict(cat="exploration", eng="E3 full enumeration", ref="3 (C26)",
                 tech="exhaustive enumeration of small input domains against arithmetic written from the statement",
-                text="Every integer below 2^18/2^22 x lengths 1..6 plus power-of-64 boundaries; every Base64 string up to length 3/4; every byte string up to 2/3 bytes x admissible sextet counts, and every sextet count 3..12 with all 256 values of the last needed byte over 4 fill patterns and 0-2 surplus bytes; after every code its neighbours sharing leading octets are converted in the same process; asked for more sextets than the bytes hold, both conversions must refuse.",
+                text="Every integer below 2^18/2^22 x lengths 1..6 plus power-of-64 boundaries to 64^48 x lengths 1..24, small numbers padded to 60, code strings to 60 characters; every Base64 string up to length 3/4; every byte string up to 2/3 bytes x admissible sextet counts, and every sextet count 3..12 with all 256 values of the last needed byte over 4 fill patterns and 0-2 surplus bytes; after every code its neighbours sharing leading octets are converted in the same process; asked for more sextets than the bytes hold, both conversions must refuse.",
                 note="l=0 excluded (documented empty soft part)."),
     "C27": dict(cat="model_checking", eng="E2 BFS", ref="3 (C27)",
                 tech="explicit-state BFS of the full reachable state graph of the real Namer with a dict-pair model in lock step",
-                text="The reachable graph over names {a,b,ab,'',None} x addrs {x,y,xy,'',None} (substrings of one another) and all 5 operations is closed (34 states); inverse/injective invariant in every state; rejected operations (also a TypeError for an address that cannot be a dict key) must not mutate; every pair of constructor entries (conflicting or not) must yield the registry the model yields or be rejected whole.",
+                text="The reachable graph over names {a,b,ab,'',None} x addrs {x,y,xy,'',None} (substrings of one another) and all 5 operations is closed (34 states); inverse/injective invariant in every state; lookups change nothing; rejected operations (also a TypeError for an address that cannot be a dict key) must not mutate; every pair of constructor entries (conflicting or not) must yield the registry the model yields or be rejected whole.",
                 note="Domains of 3 names / 3 addresses; also from constructor-seeded states."),
     "C28": dict(cat="exploration", eng="E3 term enumeration", ref="3 (C28)",
                 tech="exhaustive enumeration of field values (terms of bounded size) x shapes x formats, round-trip equality",
